@@ -45,11 +45,15 @@ type C03Scenario struct {
 	// (Not ":memory:": in shared-cache mode a writer waits for another goroutine's open read cursor inside the
 	// driver, which the scheduler cannot see through while that other task is parked.)
 	SQLite bool `json:"sqlite,omitempty"`
+	// ReplayCrowd (with Persist): this many further tasks each open one resumable subscription (ids of their own)
+	// to the first active type at the same time - several replays inside their handlers at once, each saving
+	// its position through the store while the others' cursors are open
+	ReplayCrowd int `json:"replay_crowd,omitempty"`
 	Panics   bool      `json:"panics,omitempty"` // handlers panic for events whose id is even
 	Obs      bool      `json:"obs,omitempty"`
 }
 
-var c03Kinds = []string{"pub", "pub", "pub", "pubcancel", "sub", "sub", "unsub", "clear", "clearall", "has", "count", "wait"}
+var c03Kinds = []string{"pub", "pub", "pub", "pubcancel", "pubburst", "sub", "sub", "unsub", "clear", "clearall", "has", "count", "wait"}
 var c03PersistKinds = []string{"replay", "replay-upcast", "subreplay", "subreplay", "storeread", "save-offset", "load-offset", "reg-upcast", "reg-upcast", "clear-upcasts", "clear-upcasts-type", "mat-apply", "mat-apply", "mat-get", "mat-all", "mat-last", "mat-replay", "mat-register", "shutdown"}
 var c03ReentrantKinds = []string{"pub", "sub", "unsub", "clear", "count", "has"}
 
@@ -64,6 +68,9 @@ func genC03Op(rt *rapid.T, kinds []string, leafOnly bool) C03Op {
 			Async:  rapid.IntRange(0, 2).Draw(rt, "async") == 2,
 			Seq:    rapid.IntRange(0, 3).Draw(rt, "seq") == 3,
 			Filter: rapid.SampledFrom([]int{0, 0, 1, 2}).Draw(rt, "filter"),
+		}
+		if op.Opts.Async && rapid.IntRange(0, 2).Draw(rt, "asyncSeq") == 2 {
+			op.Opts.Seq = true
 		}
 	}
 	return op
@@ -92,6 +99,10 @@ func genC03(rt *rapid.T) core.Scenario {
 		for i := 0; i < nPre; i++ {
 			sc.Init = append(sc.Init, genC03Op(rt, []string{"pub", "reg-upcast"}, false))
 		}
+	}
+	if sc.Persist && rapid.IntRange(0, 3).Draw(rt, "crowd") == 3 {
+		sc.ReplayCrowd = rapid.IntRange(3, 6).Draw(rt, "nCrowd")
+		sc.Init = append(sc.Init, C03Op{Kind: "pub", T: 0, N: 1}, C03Op{Kind: "pub", T: 0, N: 2})
 	}
 	nt := rapid.IntRange(2, 5).Draw(rt, "nTasks")
 	for t := 0; t < nt; t++ {
@@ -292,6 +303,15 @@ func (sc *C03Scenario) Execute(t *testing.T) *core.Outcome {
 				cancels[slot] = cancel
 				typ(op.T).Pub(w, c, 50000+slot)
 				cancel()
+			case "pubburst":
+				// a burst of publishes under one context that is cancelled straight afterwards - while asynchronous
+				// (and sequential: queued) deliveries of the burst may not have started - then a live publish behind them
+				c, cancel := context.WithCancel(ctx)
+				for i := 0; i < 2+op.N%2; i++ {
+					typ(op.T).Pub(w, c, 60000+10*slot+i)
+				}
+				cancel()
+				typ(op.T).Pub(w, ctx, 60000+10*slot+9)
 			case "sub":
 				w.SubscribeUID(sc.Types[op.T%3], fnOf(op), 0, op.Opts)
 			case "unsub":
@@ -342,8 +362,12 @@ func (sc *C03Scenario) Execute(t *testing.T) *core.Outcome {
 				store.Read(ctx, eventbus.OffsetOldest, op.N)
 			case "reg-upcast":
 				to := upName(op.N + 1 + op.Fn)
+				fails := (op.N+op.Fn)%3 == 2 // an upcaster that rejects what it is given (the bus reports it and carries on)
 				eventbus.RegisterUpcastFunc(w.Bus, upName(op.N), to, func(d json.RawMessage) (json.RawMessage, string, error) {
 					simrt.Yield(siteUpcaster)
+					if fails {
+						return nil, "", errUpcastInjected
+					}
 					return d, to, nil
 				})
 			case "clear-upcasts":
@@ -382,13 +406,19 @@ func (sc *C03Scenario) Execute(t *testing.T) *core.Outcome {
 				for j, op := range l {
 					if !sc.Persist {
 						switch op.Kind {
-						case "pub", "pubcancel", "sub", "unsub", "clear", "clearall", "has", "count", "wait":
+						case "pub", "pubcancel", "pubburst", "sub", "unsub", "clear", "clearall", "has", "count", "wait":
 						default:
 							continue
 						}
 					}
 					exec(op, base+j)
 				}
+			}))
+		}
+		for i := 0; i < sc.ReplayCrowd && sc.Persist; i++ {
+			i := i
+			tasks = append(tasks, simrt.GoNamed(fmt.Sprintf("crowd%d", i), func() {
+				typ(0).SubReplay(w, ctx, fmt.Sprintf("crowd-%d", i), func(int) { simrt.Yield(siteHandler) })
 			}))
 		}
 		simrt.Join(tasks...)
